@@ -73,6 +73,93 @@ def suite_local(ctx, alpha, maxlen, optbits=0, variants=("default",)):
     return r
 
 
+# ---------------------------------------------------------------- host names, literals
+
+def drift_to_c15(ctx, res, kinds=None):
+    """unpredicted outcomes -> TLC validates them against the truth predicates of layer P"""
+    if not os.path.exists(res["drift_path"]):
+        return
+    n, bad = validate_trace(ctx, "Trace_Func", res["drift_path"])
+    for (ln, ev, note) in bad:
+        case = {"kind": ev["e"], "mode": ev.get("mode"), "opts": ev.get("o"), "in": ev["in"],
+                "text": vlib.bytes_to_text(ev["in"]), "rc": ev["rc"], "model": ev.get("mrc")}
+        add_violation(ctx, "C15", "reported reason does not hold of the input", case)
+
+
+def classify_host(ctx, v, optbits):
+    case = {"kind": "host", "mode": v["mode"], "opts": v["opts"], "in": v["in"], "text": vlib.bytes_to_text(v["in"]),
+            "expected": v["exp"], "got": v["got"], "model": v["model"], "what": v["what"]}
+    if v["what"].startswith("placement"):
+        add_violation(ctx, "C06", "result depends on what lies outside the string", case)
+    elif optbits:
+        add_violation(ctx, "C17", "host-name decision under build options %d" % optbits, case)
+    else:
+        add_violation(ctx, "C04", "host-name " + v["what"], case)
+        if v["exp"] == 1 and v["what"] == "decision":
+            add_violation(ctx, "C15", "domain error reported for a valid host name", case)
+
+
+def suite_host(ctx, gen, maxlen, optbits=0, variants=("default",)):
+    r = tlc_ok(ctx, "MC_Host", cfg({"MaxLen": maxlen, "Gen": gen, "OptBits": optbits}))
+    sample_vectors(ctx, r["out"])
+    for var in variants:
+        b = build(ctx, var, optbits)
+        res = replay(ctx, b, r["out"], "host-g%d-l%d-o%d" % (gen, maxlen, optbits))
+        crash_violation(ctx, res, ["C06", ctx.prop])
+        for v in res["viol"]:
+            classify_host(ctx, v, optbits)
+        drift_to_c15(ctx, res)
+
+
+def classify_ip(ctx, v):
+    case = {"kind": v["kind"], "mode": v["mode"], "tld_check": v["opts"], "in": v["in"],
+            "text": vlib.bytes_to_text(v["in"]), "expected": v["exp"], "got": v["got"], "model": v["model"], "what": v["what"]}
+    w = v["what"]
+    if w == "decision":
+        add_violation(ctx, "C05", "address-literal decision", case)
+        add_violation(ctx, "C01", "address decision (literal domain)", case)
+    elif w == "family flag":
+        add_violation(ctx, "C05", "address family reported", case)
+        add_violation(ctx, "C16", "result flag does not match the form of the domain", case)
+    elif w == "flag set on rejection":
+        add_violation(ctx, "C16", "flag set although the address is invalid", case)
+    elif w == "mode dependent":
+        add_violation(ctx, "C12", "literal judged differently across modes", case)
+    elif w == "mode/tld_check dependent":
+        add_violation(ctx, "C08", "literal decision depends on tld_check", case)
+
+
+def suite_ip(ctx, gen, maxlen, variants=("default",)):
+    r = tlc_ok(ctx, "MC_Ip", cfg({"MaxLen": maxlen, "Gen": gen}))
+    sample_vectors(ctx, r["out"])
+    for var in variants:
+        b = build(ctx, var, 0)
+        res = replay(ctx, b, r["out"], "ip-g%d-l%d" % (gen, maxlen))
+        crash_violation(ctx, res, ["C06", ctx.prop])
+        for v in res["viol"]:
+            classify_ip(ctx, v)
+        drift_to_c15(ctx, res)
+
+
+def c04(ctx):
+    suite_host(ctx, 2, 0)
+    suite_host(ctx, 1, 6 if ctx.quick() else 8)
+    return finish(ctx, "model_checking",
+                  "TLC enumerates host names: all strings over {letter,digit,'-','.','_',other} up to MaxLen, families for label "
+                  "length 0..70 in each position, total length 240..260 with/without root dot, every byte value at each label position; "
+                  "M |= P on each; each replayed into is_ascii_domain (2 placements) and is_utf8_domain")
+
+
+def c05(ctx):
+    suite_ip(ctx, 2, 0)
+    suite_ip(ctx, 1, 5 if ctx.quick() else 7)
+    return finish(ctx, "model_checking",
+                  "TLC enumerates domain parts '[...]': bracket content over {1,0,2,5,a,g,':','.'} up to MaxLen and families "
+                  "(octet values 0..300 per position, IPv6 shapes a/b groups x widths x '::' x v4 tail x stray colons x 8 tags, "
+                  "suffix bytes after ']'); decision sandwiched between LiteralS and LiteralN, family flag pinned; replayed "
+                  "through is_{822,5321,5322,6531}_email with tld_check off and on")
+
+
 def c02(ctx):
     if ctx.quick():
         suite_local(ctx, 2, 5)
@@ -98,7 +185,7 @@ def c03(ctx):
                   "decision compared with well-formed-UTF-8 + RFC 5321 grammar over code points")
 
 
-PROPS = {"C02": c02, "C03": c03}
+PROPS = {"C02": c02, "C03": c03, "C04": c04, "C05": c05}
 
 
 def replay_file(ctx, path):
